@@ -1,6 +1,7 @@
 //! Conformance harness for falcon-rust: drives the real library and records traces for TLC.
 //! Nothing in this crate judges a property: drivers select and record, TLC decides.
 pub mod common;
+pub mod corpus;
 pub mod craft;
 pub mod variant;
 
